@@ -49,6 +49,10 @@ type c20Ctl struct {
 	release chan struct{} // one token lets one parked call continue
 	created chan struct{} // the etcd watch has been established
 	stream  chan *c20Stream
+	// delivered: key lists of the watch responses the router has taken from its (unbuffered)
+	// watch channel, in order. The router handles one response completely before it takes
+	// the next one, so "response N+1 taken" implies "response N applied".
+	delivered chan []string
 }
 
 type c20Stream struct {
@@ -56,7 +60,8 @@ type c20Stream struct {
 }
 
 func c20NewCtl() *c20Ctl {
-	return &c20Ctl{arrived: make(chan string, 8), release: make(chan struct{}), created: make(chan struct{}, 8), stream: make(chan *c20Stream, 8)}
+	return &c20Ctl{arrived: make(chan string, 8), release: make(chan struct{}), created: make(chan struct{}, 8), stream: make(chan *c20Stream, 8),
+		delivered: make(chan []string, 4096)}
 }
 
 // park returns false when ctx ended while waiting (router stopped).
@@ -95,7 +100,7 @@ type c20Watcher struct {
 }
 
 func (w *c20Watcher) Watch(ctx context.Context, key string, opts ...clientv3.OpOption) clientv3.WatchChan {
-	out := make(chan clientv3.WatchResponse, 64)
+	out := make(chan clientv3.WatchResponse) // unbuffered on purpose, see c20Ctl.delivered
 	if !w.ctl.park(ctx, "watch") {
 		close(out)
 		return out
@@ -119,6 +124,14 @@ func (w *c20Watcher) Watch(ctx context.Context, key string, opts ...clientv3.OpO
 				}
 				select {
 				case out <- resp:
+					keys := make([]string, 0, len(resp.Events))
+					for _, ev := range resp.Events {
+						keys = append(keys, string(ev.Kv.Key))
+					}
+					select {
+					case w.ctl.delivered <- keys:
+					default:
+					}
 				case <-s.cut:
 					return
 				case <-ctx.Done():
@@ -149,6 +162,7 @@ type c20Flavour struct {
 	name     string
 	universe []c20Entry
 	sentinel c20Entry
+	sentinel2 c20Entry
 	start    func(ctx context.Context, cli *clientv3.Client) (lookup func(c20Entry) string, all func() map[string]string, stop func(), err error)
 	prefix   string
 }
@@ -161,6 +175,7 @@ func c20PartitionFlavour() c20Flavour {
 		}
 	}
 	f.sentinel = c20Entry{EtcdKey: partitionLeaseKey("vf-sentinel", 0), Name: "vf-sentinel:0", topic: "vf-sentinel", part: 0}
+	f.sentinel2 = c20Entry{EtcdKey: partitionLeaseKey("vf-sentinel", 1), Name: "vf-sentinel:1", topic: "vf-sentinel", part: 1}
 	f.start = func(ctx context.Context, cli *clientv3.Client) (func(c20Entry) string, func() map[string]string, func(), error) {
 		r, err := NewPartitionRouter(ctx, cli, c20Quiet)
 		if err != nil {
@@ -184,6 +199,7 @@ func c20GroupFlavour() c20Flavour {
 		f.universe = append(f.universe, c20Entry{EtcdKey: groupLeasePrefix + "/" + g, Name: g})
 	}
 	f.sentinel = c20Entry{EtcdKey: groupLeasePrefix + "/vf-sentinel", Name: "vf-sentinel"}
+	f.sentinel2 = c20Entry{EtcdKey: groupLeasePrefix + "/vf-sentinel2", Name: "vf-sentinel2"}
 	f.start = func(ctx context.Context, cli *clientv3.Client) (func(c20Entry) string, func() map[string]string, func(), error) {
 		r, err := NewGroupRouter(ctx, cli, c20Quiet)
 		if err != nil {
@@ -470,17 +486,36 @@ func (c *c20Case) run(p c20Plan) (string, error) {
 			}
 		}
 	}
-	// barrier: sentinel through the established watch
-	sval := "S"
-	if err := c.write("sentinel", c.f.sentinel, sval); err != nil {
+	// barrier through the established watch, independent of how the router applies events:
+	// sentinel A is written and we wait until the router has TAKEN the response carrying it;
+	// then sentinel B, same wait. The router takes a response only after it has completely
+	// handled the previous one, so by then everything up to and including A is applied.
+	waitTaken := func(key string) error {
+		deadline := time.After(60 * time.Second)
+		for {
+			select {
+			case keys := <-c.ctl.delivered:
+				for _, k := range keys {
+					if k == key {
+						return nil
+					}
+				}
+			case <-deadline:
+				return fmt.Errorf("%w: the router did not take the watch response carrying %s from an established watch", errC20Inconclusive, key)
+			}
+		}
+	}
+	if err := c.write("sentinel", c.f.sentinel, "S"); err != nil {
 		return "", err
 	}
-	deadline := time.Now().Add(60 * time.Second)
-	for r.lookup(c.f.sentinel) != sval {
-		if time.Now().After(deadline) {
-			return "", fmt.Errorf("%w: sentinel written through an established watch was not reported by the router", errC20Inconclusive)
-		}
-		time.Sleep(100 * time.Microsecond)
+	if err := waitTaken(c.f.sentinel.EtcdKey); err != nil {
+		return "", err
+	}
+	if err := c.write("sentinel2", c.f.sentinel2, "S2"); err != nil {
+		return "", err
+	}
+	if err := waitTaken(c.f.sentinel2.EtcdKey); err != nil {
+		return "", err
 	}
 	kvs, err := c.etcdContent()
 	if err != nil {
@@ -488,6 +523,8 @@ func (c *c20Case) run(p c20Plan) (string, error) {
 	}
 	want := c20Expected(c.f, kvs)
 	got := r.all()
+	delete(want, c.f.sentinel2.Name) // the second sentinel may or may not have been applied yet
+	delete(got, c.f.sentinel2.Name)
 	var diffs []string
 	for k, v := range want {
 		if got[k] != v {
